@@ -225,6 +225,11 @@ impl Monitor for DumpMonitor {
         if !sess.open_slots().is_empty() {
             return Ok(());
         }
+        if rng.chance(1, 40) {
+            // listings report current lengths, also when the listing was started before a
+            // handle changed one of them
+            crate::props::handles::listing_across_a_write_episode(sess, rng, rep)?;
+        }
         let deep = rng.chance(1, 4);
         match sess.check_against_model(deep) {
             Ok(k) => {
@@ -340,8 +345,58 @@ fn hdr_fields(bytes: &[u8]) -> Vec<u8> {
     bytes.get(40..76).map(|s| s.to_vec()).unwrap_or_default()
 }
 
+/// Write-through also when the bytes written equal what the handle's (stale) read window
+/// holds: handle A has read the stream; handle B overwrites a region and flushes; A writes
+/// the original bytes back over that region and flushes - the stored bytes must be the
+/// original ones again.  Scratch stream, removed again.
+fn restore_through_a_stale_handle_episode(sess: &mut Session, rng: &mut Rng, rep: &mut Report) -> Result<(), Fail> {
+    use std::io::{Read, Seek, SeekFrom, Write};
+    let io = |what: &str| {
+        let w = what.to_string();
+        move |e: std::io::Error| ("harness-or-C01: stale-handle episode".to_string(), format!("{w}: {e}"))
+    };
+    let len = *rng.pick(&[200usize, 3000, 6000]);
+    let at = rng.below(len as u64 - 40);
+    let orig = crate::engine::payload(77, len);
+    let cf = sess.cf();
+    {
+        let mut s = cf.create_stream("/tw").map_err(io("create_stream"))?;
+        s.write_all(&orig).map_err(io("write"))?;
+        s.flush().map_err(io("flush"))?;
+    }
+    let mut a = cf.open_stream("/tw").map_err(io("open A"))?;
+    let mut seen = Vec::new();
+    a.read_to_end(&mut seen).map_err(io("read through A"))?;
+    {
+        let mut b = cf.open_stream("/tw").map_err(io("open B"))?;
+        b.seek(SeekFrom::Start(at)).map_err(io("seek B"))?;
+        b.write_all(&[0xEE; 16]).map_err(io("write through B"))?;
+        b.flush().map_err(io("flush B"))?;
+    }
+    a.seek(SeekFrom::Start(at)).map_err(io("seek A"))?;
+    a.write_all(&orig[at as usize..at as usize + 16]).map_err(io("write through A"))?;
+    a.flush().map_err(io("flush A"))?;
+    drop(a);
+    let stored = sess.shared.bytes();
+    let mut res = Ok(());
+    for mode in [Mode::Strict, Mode::Permissive] {
+        let d = engine::dump_bytes(&stored, mode).map_err(|w| ("crash-point | reopen | open failed".to_string(), format!("stale-handle episode: {w}")))?;
+        let got = d.iter().find(|(v, _)| v.path == "/tw").map(|(_, b)| b.clone()).unwrap_or_default();
+        if got != orig {
+            res = Err(("crash-point | bytes written through a handle are not in the stored file".to_string(), format!("/tw ({len} bytes): handle A had read it, handle B overwrote 16 bytes at {at} and flushed, A wrote the original 16 bytes back and flushed; the stored file ({mode:?}) still holds {}", engine::describe_bytes_diff(&orig, &got))));
+            break;
+        }
+    }
+    sess.cf().remove_stream("/tw").map_err(io("remove_stream"))?;
+    rep.count("stale_handle_restores_checked");
+    res
+}
+
 impl Monitor for ReopenMonitor {
     fn quiescent(&mut self, sess: &mut Session, rng: &mut Rng, gen: &Gen, rep: &mut Report, done: &mut Vec<Step>) -> Result<(), Fail> {
+        if sess.open_slots().is_empty() && rng.chance(1, 40) {
+            restore_through_a_stale_handle_episode(sess, rng, rep)?;
+        }
         // the live object must itself agree with the model, otherwise the comparison
         // below would blame persistence for a C01 matter
         let exp = sess.model.dump();
@@ -526,6 +581,85 @@ fn c02_large_scenario(ctx: &Ctx, case: u64, rep: &mut Report) {
     rep.add("steps", done.len() as u64);
 }
 
+/// A MiniFAT whose sectors are exactly full (128 / 1024 entries) and whose very last cell
+/// legitimately holds 0: the stream that ends in the top mini sector grows by one mini
+/// sector and gets mini sector 0, the only free one.  Crash points along the way.
+fn c02_full_minifat_scenario(ctx: &Ctx, case: u64, rep: &mut Report, version: Version) {
+    use crate::engine::OpenHow;
+    let per: usize = if version == Version::V3 { 128 } else { 1024 };
+    let mut done: Vec<Step> = Vec::new();
+    let res = guard::catch(|| -> Result<(), Fail> {
+        let mut sess = Session::create(version, None).map_err(|e| ("create | ok | err".to_string(), format!("{e}")))?;
+        let mut crash_point = |sess: &mut Session, when: &str, rep: &mut Report| -> Result<(), Fail> {
+            let bytes = sess.shared.bytes();
+            let exp = sess.model.dump();
+            for mode in [Mode::Permissive, Mode::Strict] {
+                let obs = engine::dump_bytes(&bytes, mode).map_err(|w| (format!("crash-point | reopen {:?} | open failed", mode), format!("full-MiniFAT scenario, {when}: {w}")))?;
+                engine::dumps_match(&exp, &obs).map_err(|w| (format!("crash-point | reopen {:?} | state differs", mode), format!("full-MiniFAT scenario, {when}: {w}")))?;
+            }
+            rep.count("crash_points");
+            rep.count("full_minifat.crash_points");
+            Ok(())
+        };
+        let mut steps: Vec<Step> = Vec::new();
+        let mut put = |path: String, len: usize, steps: &mut Vec<Step>| {
+            steps.push(Step::HOpen { slot: 0, path, how: OpenHow::Create });
+            steps.push(Step::HWriteAll { slot: 0, len });
+            steps.push(Step::HClose { slot: 0 });
+        };
+        put("/first".into(), 64, &mut steps);
+        let mut left = per - 2;
+        let mut k = 0;
+        while left >= 63 {
+            put(format!("/pad{k}"), 63 * 64, &mut steps);
+            left -= 63;
+            k += 1;
+        }
+        if left > 0 {
+            put("/padlast".into(), left * 64, &mut steps);
+        }
+        put("/last".into(), 64, &mut steps);
+        for st in steps {
+            done.push(st.clone());
+            if sess.run(&st).is_some() {
+                rep.count("abandoned_model_divergence");
+                return Ok(());
+            }
+        }
+        crash_point(&mut sess, "MiniFAT exactly full", rep)?;
+        for st in [Step::Api(Op::RemoveStream("/first".into())), Step::HOpen { slot: 0, path: "/last".into(), how: OpenHow::Open }, Step::HSetLen { slot: 0, n: 128 }, Step::HClose { slot: 0 }] {
+            done.push(st.clone());
+            if sess.run(&st).is_some() {
+                rep.count("abandoned_model_divergence");
+                return Ok(());
+            }
+        }
+        crash_point(&mut sess, "after /last grew from the top mini sector into mini sector 0", rep)?;
+        let b = sess.shared.bytes();
+        if let Ok(img) = refparse::parse(&b) {
+            if img.minifat.len() == per && img.minifat.last() == Some(&0) {
+                rep.count("full_minifat.last_cell_is_zero");
+            }
+        }
+        for st in [Step::HOpen { slot: 0, path: "/more".into(), how: OpenHow::Create }, Step::HWriteAll { slot: 0, len: 200 }, Step::HClose { slot: 0 }, Step::Api(Op::RemoveStream("/pad0".into()))] {
+            done.push(st.clone());
+            if sess.run(&st).is_some() {
+                rep.count("abandoned_model_divergence");
+                return Ok(());
+            }
+        }
+        crash_point(&mut sess, "after a further small stream and a removal", rep)?;
+        Ok(())
+    });
+    let witness = ctx.witness(case, vec![("scenario", J::s(format!("{:?}: MiniFAT exactly full, then /first removed and /last grown by one mini sector", version))), ("steps", steps_json(&done))]);
+    match res {
+        Ok(Ok(())) => rep.count("full_minifat.scenarios"),
+        Ok(Err((sig, detail))) => rep.finding(sig, detail, witness),
+        Err(p) => rep.finding(p.signature(), format!("panic at {}:{}: {}", p.file, p.line, p.message), witness),
+    }
+    rep.add("steps", done.len() as u64);
+}
+
 pub fn run_c02(ctx: &Ctx, rep: &mut Report) {
     if crate::props::huge::maybe_run(ctx, rep, "beyond 4 GiB", 10) {
         return;
@@ -538,6 +672,12 @@ pub fn run_c02(ctx: &Ctx, rep: &mut Report) {
         if case == 0 && ctx.shard % 4 == 0 {
             c02_large_scenario(ctx, case, rep);
             rep.nontrivial(0xD1FA7 ^ ctx.shard);
+            rep.evaluations += 1;
+            continue;
+        }
+        if case == 0 && (ctx.shard == 1 || ctx.shard == 5) {
+            c02_full_minifat_scenario(ctx, case, rep, if ctx.shard == 1 { Version::V3 } else { Version::V4 });
+            rep.nontrivial(0xF011 ^ ctx.shard);
             rep.evaluations += 1;
             continue;
         }
